@@ -179,6 +179,8 @@ pub struct Client {
     pub srv_write_failed: bool,
     /// ... and that happened inside flush_outgoing_writes() while the application still owed it answers
     pub failed_in_flush_while_owed: bool,
+    /// epoll_wait reported a hang-up condition (HUP / RDHUP / ERR) for this connection to the server
+    pub server_saw_hangup: bool,
     /// tags yielded to the application, in order
     pub yielded: Vec<String>,
     /// tags the application answered (respond() returned Ok), in order, with the serialised bytes
@@ -492,6 +494,7 @@ impl ServerSim {
                                     write_fault: false,
                                     srv_write_failed: false,
                                     failed_in_flush_while_owed: false,
+                                    server_saw_hangup: false,
                                     yielded: vec![],
                                     responded: vec![],
                                     expected_out: vec![],
@@ -1127,6 +1130,15 @@ impl ServerSim {
                     if evs.len() >= 2 {
                         st.fault("F-order:multi-event-batch");
                     }
+                    for (id, _fd, mask) in evs.iter() {
+                        if *id != world::OBJ_LISTENER && *id != world::OBJ_EVENTFD && mask & 0x2018 != 0 {
+                            if let Some(cid) = self.conn_to_client.get(*id) {
+                                if let Some(cl) = self.clients.get_mut(cid) {
+                                    cl.server_saw_hangup = true;
+                                }
+                            }
+                        }
+                    }
                     if let Some(p) = evs.iter().position(|e| e.0 == world::OBJ_EVENTFD) {
                         if p > 0 {
                             self.kill_not_first = true;
@@ -1567,6 +1579,15 @@ impl ServerSim {
                                 class,
                                 format!(
                                     "a write to client {} failed (it can no longer be written to) and everything yielded from it was answered, but the server still holds descriptor {}",
+                                    cid, fd
+                                ),
+                            ));
+                        }
+                        if cl.server_saw_hangup && !cl.closed && cl.accept == Accept::Served {
+                            return Err(self.v(
+                                "hung-up-connection-not-released",
+                                format!(
+                                    "the server was told that client {} hung up (half-close) and everything yielded from it was answered, but it still holds descriptor {}",
                                     cid, fd
                                 ),
                             ));
